@@ -17,7 +17,7 @@ changed=$(git diff --name-only | grep -v '^src/' | head -1)
 mv tests/demo.rs /tmp/demo.$$.rs
 cargo test --workspace --no-fail-fast --offline > /tmp/suite.$$.log 2>&1
 suite=$(grep -E "^test result" /tmp/suite.$$.log | awk '{p+=$4; f+=$6} END {print p" passed; "f" failed"}')
-failed=$(grep -E "^test .* FAILED" /tmp/suite.$$.log | awk '{print $2}' | sort -u | tr '\n' ' ')
+failed=$(grep -E "^test [A-Za-z0-9_:]+ \.\.\. FAILED" /tmp/suite.$$.log | awk '{print $2}' | sort -u | tr '\n' ' ')
 if [ -n "$failed" ]; then
   # the 10 ms timing tests of the store fail sporadically when the machine is loaded: a failed test is re-run alone (3 tries)
   still=""
